@@ -14,11 +14,8 @@ func FormatPacketDsl(dsl string) (string, error) {
 	if err != nil {
 		return "", fmt.Errorf("could not create parser: %v", err)
 	}
-	listener := NewSyntaxErrorListener()
-	parser.RemoveErrorListeners()
-	parser.AddErrorListener(listener)
 	// parese the file
-	tree := parser.Packet()
+	tree, listener := ParseAll(parser)
 	if listener.HasErrors() {
 		return dsl, fmt.Errorf("syntax errors found: %v", listener.Errors)
 	}
